@@ -29,6 +29,11 @@ def col_of(info, g):
     return smt.define_divmod(g, info.residues_per_line)[1]
 
 
+def mul_mono(k, c, b):
+    """lemma instance (valid in integer arithmetic): 0 <= k <= c and b >= 0 imply k*b <= c*b"""
+    return z3.Implies(z3.And(0 <= k, k <= c, b >= 0), k * b <= c * b)
+
+
 def div_unique(a, b, k, r0=0):
     """lemma instance (valid in integer arithmetic): if a == b*k + r0 with 0 <= r0 < b then k and r0 are
     the quotient and remainder of a by b"""
@@ -139,7 +144,7 @@ class _:
     def ensures(o, n, res):
         return [
             ("exactly-the-interval", z3.And(res.g_kind == 0, res.g_first == o.start - 1, res.g_n == o.end - o.start + 1)),
-            ("fresh", res.z >= o.alloc),
+            ("fresh", z3.And(res.z >= o.alloc, res.z < n.alloc)),
         ]
 
     loops = {
@@ -153,4 +158,342 @@ class _:
             ])(v.fh, o.info, o.info.residues_per_line),
             hints=lambda v: [div_unique(v.fh.g_next, v.info.residues_per_line, v.frst_line + 1 + v._it0)],
         )
+    }
+
+
+def chunk_len(total, B, k):
+    """length of the k-th chunk when `total` items are delivered in chunks of at most B"""
+    return smt.Min(B, total - k * B)
+
+
+@contract("tola.fasta.simple.revcomp_bytes_io", kind="function", status="TRUSTED", properties=("C14",))
+class _:
+    # bytes-level model of reverse_complement (the table itself is decided exhaustively, see lemma c14_complement_table)
+    params = {"seq": BIO}
+    result = BIO
+    modifies = staticmethod(lambda o: [("fresh-objs", "BytesIO", ["g_kind", "g_first", "g_n", "g_pos"]), ("alloc",)])
+
+    @staticmethod
+    def requires(o):
+        return o.seq.g_kind == 0
+
+    @staticmethod
+    def ensures(o, n, res):
+        s = o.seq
+        return z3.And(res.z >= o.alloc, res.z < n.alloc, res.g_kind == 2, res.g_first == s.g_first, res.g_n == s.g_n, res.g_pos == 0)
+
+
+def _chunk_requires(o):
+    return [("layout", layout(o.info)), ("interval", z3.And(1 <= o.start, o.start <= o.end, o.end <= o.info.length)),
+            ("buffer", o.self.buffer_size >= 1)]
+
+
+def _chunk_modifies(o):
+    fh = o.self.fasta_fileandle
+    return [("field", "FastaFH", f, fh) for f in ("pos", "g_info", "g_next")] + [
+        ("fresh-objs", "BytesIO", ["g_kind", "g_first", "g_n", "g_pos"]), ("fresh-lists", BIO), ("alloc",)]
+
+
+def _chunks_are(lst, upto, kind, start, end, B, order, fresh_from=None):
+    """chunk number k of lst (k < upto) is the order(k)-th buffer-sized piece of residues start..end"""
+    total = end - start + 1
+
+    def one(k):
+        c = lst[k]
+        j = order(k)
+        return z3.And(c.g_kind == kind, c.g_first == start - 1 + j * B, c.g_n == chunk_len(total, B, j),
+                      c.g_n >= 1, c.g_n <= B,  # never empty, never more than the buffer (C13)
+                      c.z >= fresh_from)
+
+    return forall(lambda k: z3.Implies(z3.And(0 <= k, k < upto), one(k)))
+
+
+@contract(f"{IX}.fwd_chunks", properties=("C03", "C13"))
+class _:
+    # "at no time are more than buffer-size residues of one fragment held": every chunk is <= buffer_size,
+    # and together the chunks are exactly residues start..end in order
+    params = {"self": TRef("FastaIndex"), "info": INFO, "start": INT, "end": INT}
+    result = TList(BIO)
+    requires = staticmethod(_chunk_requires)
+    modifies = staticmethod(_chunk_modifies)
+
+    @staticmethod
+    def ensures(o, n, res):
+        B = o.self.buffer_size
+        q, r = smt.define_divmod(o.end - o.start, B)
+        return [
+            ("count", res.len == q + 1),
+            ("chunks", _chunks_are(res, res.len, 0, o.start, o.end, B, lambda k: k, o.alloc)),
+            ("fresh", res.z >= o.alloc),
+        ]
+
+    loops = {
+        0: LoopSpec(
+            kind="for",
+            inv=lambda v, e, o: (lambda B, q: [
+                ("counter", z3.And(0 <= v._it0, v._it0 <= q + 1, v.chunk_count == q + 1, v.max_length == B)),
+                ("yielded", z3.And(v._yields.len == v._it0, v._yields.same(e._yields))),
+                ("chunks", _chunks_are(v._yields, v._it0, 0, o.start, o.end, B, lambda k: k, o.alloc)),
+                ("old-refs", forall(lambda k: z3.Implies(z3.And(0 <= k, k < v._it0), v._yields[k].z < v.alloc))),
+            ])(o.self.buffer_size, smt.define_divmod(o.end - o.start, o.self.buffer_size)[0]),
+        )
+    }
+
+
+@contract(f"{IX}.rev_chunks", properties=("C03", "C13", "C14"))
+class _:
+    # the same pieces last-first, each reverse-complemented: the reverse complement of the interval
+    params = {"self": TRef("FastaIndex"), "info": INFO, "start": INT, "end": INT}
+    result = TList(BIO)
+    requires = staticmethod(_chunk_requires)
+    modifies = staticmethod(_chunk_modifies)
+
+    @staticmethod
+    def ensures(o, n, res):
+        B = o.self.buffer_size
+        q, r = smt.define_divmod(o.end - o.start, B)
+        return [
+            ("count", res.len == q + 1),
+            ("chunks", _chunks_are(res, res.len, 2, o.start, o.end, B, lambda k: q - k, o.alloc)),
+            ("fresh", res.z >= o.alloc),
+        ]
+
+    loops = {
+        0: LoopSpec(
+            kind="for",
+            inv=lambda v, e, o: (lambda B, q: [
+                ("counter", z3.And(-1 <= v._it0, v._it0 <= q, v.chunk_count == q, v.max_length == B)),
+                ("yielded", z3.And(v._yields.len == q - v._it0, v._yields.same(e._yields))),
+                ("chunks", _chunks_are(v._yields, q - v._it0, 2, o.start, o.end, B, lambda k: q - k, o.alloc)),
+                ("old-refs", forall(lambda k: z3.Implies(z3.And(0 <= k, k < q - v._it0), v._yields[k].z < v.alloc))),
+            ])(o.self.buffer_size, smt.define_divmod(o.end - o.start, o.self.buffer_size)[0]),
+        )
+    }
+
+
+@contract(f"{IX}.get_gap_iter", properties=("C03", "C13"))
+class _:
+    # "every gap rendered as that many N characters", in pieces of at most buffer_size
+    params = {"self": TRef("FastaIndex"), "gap": GAP, "gap_character": BYTES}
+    result = TList(BIO)
+
+    @staticmethod
+    def requires(o):
+        return [("gap-length", o.gap.length >= 0), ("buffer", o.self.buffer_size >= 1),
+                ("filler", z3.And(o.gap_character[0] == 1, o.gap_character[2] == 1))]
+
+    modifies = staticmethod(lambda o: [("fresh-objs", "BytesIO", ["g_kind", "g_first", "g_n", "g_pos"]), ("fresh-lists", BIO), ("alloc",)])
+
+    @staticmethod
+    def ensures(o, n, res):
+        B = o.self.buffer_size
+        L = o.gap.length
+        q, r = smt.define_divmod(L, B)
+        return [
+            ("count", res.len == q + 1),
+            ("chunks", forall(lambda k: z3.Implies(z3.And(0 <= k, k < res.len),
+                                                   z3.And(res[k].g_kind == 1, res[k].g_n == chunk_len(L, B, k), res[k].g_n >= 0, res[k].g_n <= B, res[k].g_pos == 0, res[k].z >= o.alloc)))),
+            ("fresh", res.z >= o.alloc),
+        ]
+
+    loops = {
+        0: LoopSpec(
+            kind="for",
+            inv=lambda v, e, o: (lambda B, L, q: [
+                ("counter", z3.And(0 <= v._it0, v._it0 <= q + 1, v.chunk_count == q + 1, v.max_length == B, v.length == L)),
+                ("yielded", z3.And(v._yields.len == v._it0, v._yields.same(e._yields))),
+                ("chunks", forall(lambda k: z3.Implies(z3.And(0 <= k, k < v._it0),
+                                                       z3.And(v._yields[k].g_kind == 1, v._yields[k].g_n == chunk_len(L, B, k), v._yields[k].g_n >= 0,
+                                                              v._yields[k].g_n <= B, v._yields[k].g_pos == 0, v._yields[k].z >= o.alloc)))),
+                ("old-refs", forall(lambda k: z3.Implies(z3.And(0 <= k, k < v._it0), v._yields[k].z < v.alloc))),
+            ])(o.self.buffer_size, o.gap.length, smt.define_divmod(o.gap.length, o.self.buffer_size)[0]),
+        )
+    }
+
+
+# --- more of io ------------------------------------------------------------------------------------
+
+
+@contract("ext.BytesIO.seek", status="TRUSTED")
+class _:
+    params = {"self": BIO, "offset": INT}
+    result = INT
+    requires = staticmethod(lambda o: z3.And(o.offset >= 0, o.offset <= o.self.g_n))
+    modifies = staticmethod(lambda o: [("field", "BytesIO", "g_pos", o.self)])
+    ensures = staticmethod(lambda o, n, res: n.self.g_pos == o.offset)
+
+
+@contract("ext.BytesIO.read", status="TRUSTED")
+class _:
+    params = {"self": BIO, "n": INT}
+    result = BYTES
+    requires = staticmethod(lambda o: z3.And(o.n >= 0, 0 <= o.self.g_pos, o.self.g_pos <= o.self.g_n))
+    modifies = staticmethod(lambda o: [("field", "BytesIO", "g_pos", o.self)])
+
+    @staticmethod
+    def ensures(o, n, res):
+        s = o.self
+        m = smt.Min(o.n, s.g_n - s.g_pos)
+        return z3.And(res[0] == s.g_kind, res[1] == s.g_first + s.g_pos, res[2] == m, n.self.g_pos == s.g_pos + m)
+
+
+BOUT = TRef("BinOut")
+
+
+@contract("ext.BinOut.write", status="TRUSTED")
+class _:
+    # C03: "wrapped at the line length with no empty or over-long lines" are the preconditions of write
+    params = {"self": BOUT, "b": BYTES}
+    result = INT
+
+    @staticmethod
+    def requires(o):
+        s, b = o.self, o.b
+        kind, n = b[0], b[2]
+        is_seq = z3.Or(kind == 0, kind == 1, kind == 2)
+        return [
+            ("known-kind", z3.Or(is_seq, kind == 3, kind == 4)),
+            ("no-empty-line", z3.Implies(kind == 3, s.g_col > 0)),
+            ("no-over-long-line", z3.Implies(is_seq, z3.And(n >= 1, s.g_col + n <= s.g_L))),
+            ("header-starts-a-record", z3.Implies(kind == 4, s.g_col == 0)),
+        ]
+
+    modifies = staticmethod(lambda o: [("field", "BinOut", "g_col", o.self), ("field", "BinOut", "g_total", o.self)])
+
+    @staticmethod
+    def ensures(o, n, res):
+        s, b, t = o.self, o.b, n.self
+        kind, k = b[0], b[2]
+        return z3.If(kind == 3, z3.And(t.g_col == 0, t.g_total == s.g_total),
+                     z3.If(kind == 4, z3.And(t.g_col == 0, t.g_total == 0),
+                           z3.And(t.g_col == s.g_col + k, t.g_total == s.g_total + k)))
+
+
+@contract(f"{IX}.get_info", properties=("C03",))
+class _:
+    params = {"self": TRef("FastaIndex"), "name": STR}
+    result = INFO
+    raises = {"ValueError": lambda o: z3.Not(o.self.index.has(o.name))}
+    ensures = staticmethod(lambda o, n, res: z3.And(o.self.index.has(o.name), res.same(o.self.index.get(o.name))))
+
+
+def row_readable(idx, r):
+    """a Fragment row lies within an indexed sequence"""
+    info = idx.index.get(r.name)
+    return z3.And(idx.index.has(r.name), layout(info), 1 <= r.start, r.end <= info.length)
+
+
+@contract(f"{IX}.get_sequence_iter", properties=("C03", "C14"))
+class _:
+    # "reverse-complemented for minus-strand rows"
+    params = {"self": TRef("FastaIndex"), "frag": FRAG}
+    result = TList(BIO)
+
+    @staticmethod
+    def requires(o):
+        return [("row-within-index", row_readable(o.self, o.frag)), ("buffer", o.self.buffer_size >= 1)]
+
+    modifies = staticmethod(_chunk_modifies)
+    raises = {"ValueError": lambda o: z3.Not(o.self.index.has(o.frag.name))}
+
+    @staticmethod
+    def ensures(o, n, res):
+        B = o.self.buffer_size
+        f = o.frag
+        q, r = smt.define_divmod(f.end - f.start, B)
+        return [
+            ("count", res.len == q + 1),
+            # one quantified fact (no case split around the quantifier): kind 2 / last-first for the minus strand
+            ("chunks", _chunks_are(res, res.len, z3.If(f.strand == -1, 2, 0), f.start, f.end, B,
+                                   lambda k: z3.If(f.strand == -1, q - k, k), o.alloc)),
+            ("fresh", res.z >= o.alloc),
+        ]
+
+
+ST = "tola.fasta.stream.FastaStream"
+
+
+def rows_streamable(idx, rows):
+    return forall(lambda k: z3.Implies(z3.And(0 <= k, k < rows.len),
+                                       z3.If(rows[k].is_gap, rows[k].length >= 0, row_readable(idx, rows[k]))))
+
+
+def _ws_common(v):
+    out = v.out
+    L = v.line_length
+    return out, L
+
+
+@contract(f"{ST}.write_scaffold", properties=("C03", "C13"))
+class _:
+    params = {"self": TRef("FastaStream"), "scaffold": TRef("Scaffold")}
+    result = NONE
+
+    @staticmethod
+    def requires(o):
+        s = o.self
+        return [
+            ("line-length", z3.And(s.line_length >= 1, s.out.g_L == s.line_length, s.out.g_col == 0)),
+            ("buffer", s.index.buffer_size >= 1),
+            ("filler", z3.And(s.gap_character[0] == 1, s.gap_character[2] == 1)),
+            ("rows-within-index", rows_streamable(s.index, o.scaffold.rows)),
+        ]
+
+    @staticmethod
+    def modifies(o):
+        fh = o.self.index.fasta_fileandle
+        return ([("field", "BinOut", "g_col", o.self.out), ("field", "BinOut", "g_total", o.self.out)]
+                + [("field", "FastaFH", f, fh) for f in ("pos", "g_info", "g_next")]
+                + [("fresh-objs", "BytesIO", ["g_kind", "g_first", "g_n", "g_pos"]), ("fresh-lists", BIO), ("alloc",)])
+
+    @staticmethod
+    def ensures(o, n, res):
+        # the record holds exactly as many residues as the scaffold is long, and ends with a complete line
+        return [("record-length", n.self.out.g_total == o.scaffold.rows.cum(o.scaffold.rows.len)),
+                ("complete-last-line", n.self.out.g_col == 0)]
+
+    loops = {
+        0: LoopSpec(  # rows
+            kind="for",
+            inv=lambda v, e, o: (lambda out, L, rows: [
+                ("want", z3.And(1 <= v.want, v.want <= L, v.want == L - out.g_col, L == o.self.line_length, out.g_L == L)),
+                ("total", out.g_total == rows.cum(v._it0)),
+                ("counter", z3.And(0 <= v._it0, v._it0 <= rows.len)),
+                ("same", z3.And(v.out.z == o.self.out.z, v.fai.z == o.self.index.z)),
+            ])(v.out, v.line_length, o.scaffold.rows),
+            frame=lambda v, e: {"$fresh-only": ["H.BytesIO.g_pos"]},
+        ),
+        1: LoopSpec(  # chunks of one row
+            kind="for",
+            inv=lambda v, e, o: (lambda out, L, B, rlen: [
+                ("want", z3.And(1 <= v.want, v.want <= L, v.want == L - out.g_col, L == o.self.line_length, out.g_L == L)),
+                # residues of this row delivered by the first k chunks: chunks come first-to-last, except for a
+                # minus-strand fragment whose pieces come last-first
+                ("total", out.g_total == e.out.g_total + z3.If(
+                    z3.And(v.row.is_frag, v.row.strand == -1),
+                    rlen - smt.Min((v.itr.len - v._it1) * B, rlen),
+                    smt.Min(v._it1 * B, rlen))),
+                ("counter", z3.And(0 <= v._it1, v._it1 <= v.itr.len)),
+                ("same", z3.And(v.out.z == o.self.out.z, v.fai.z == o.self.index.z, v.itr.same(e.itr))),
+            ])(v.out, v.line_length, o.self.index.buffer_size, v.row.length),
+            # lemma instance: multiplication by the (positive) buffer size is monotone
+            hints=lambda v: [mul_mono(v._it1, v.itr.len - 1, v.fai.buffer_size),
+                             mul_mono(v.itr.len - 1 - v._it1, v.itr.len - 1, v.fai.buffer_size)],
+            frame=lambda v, e: {"$fresh-only": ["H.BytesIO.g_pos"]},
+        ),
+        2: LoopSpec(  # pieces of one chunk
+            kind="while",
+            inv=lambda v, e, o: (lambda out, L, c: [
+                ("want-range", z3.And(1 <= v.want, v.want <= L)),
+                ("want-col", v.want == L - out.g_col),
+                ("L", z3.And(L == o.self.line_length, out.g_L == L)),
+                ("consumed", z3.And(0 <= c.g_pos, c.g_pos <= c.g_n, out.g_total == e.out.g_total + c.g_pos)),
+                ("chunk", z3.And(c.g_n == e.chunk.g_n, c.g_kind == e.chunk.g_kind, v.chunk.z == e.chunk.z)),
+                # what the chunk contracts say about this chunk, carried along (no quantifier needed afterwards)
+                ("chunk-facts", z3.And(z3.Or(c.g_kind == 0, c.g_kind == 1, c.g_kind == 2), c.g_n >= 0)),
+                ("same", v.out.z == o.self.out.z),
+            ])(v.out, v.line_length, v.chunk),
+            variant=lambda v: v.chunk.g_n - v.chunk.g_pos,
+            frame=lambda v, e: {"$fresh-only": ["H.BytesIO.g_pos"]},
+        ),
     }
